@@ -249,26 +249,34 @@ Opaque mutate.
 Lemma apply_effect_inv s E e : Inv s -> eff_inv s e -> Inv (apply_effect s E e).
 Proof.
   intros [Hu Hn Hc] He.
-  destruct e as [|a m|z|name pw addmask|ch c|h|h]; simpl; try (constructor; assumption).
+  destruct e as [|a m|z|name pw addmask|ch c|h|h]; try (constructor; assumption).
   - destruct He as [Hin Hm].
     pose proof (forallb_In _ _ _ Hu Hin) as Ha.
     pose proof (wf_mutate a m Ha Hm) as Ha'.
-    assert (I1 : Inv (store s (mutate a m))).
-    { constructor; simpl; [apply forallb_put; assumption| |exact Hc].
-      pose proof (aid_nonneg _ Ha'). lia. }
-    destruct m; try exact I1.
-    match goal with |- context[if ?b then _ else _] => destruct b end; [|exact I1].
-    destruct I1 as [Hu1 Hn1 Hc1]. constructor; simpl; [|exact Hn1|exact Hc1].
-    apply forallb_put; [|exact Hu1]. apply wf_mutate; [exact Ha'|exact Logic.I].
+    pose proof (aid_nonneg _ Ha) as N0. pose proof (aid_nonneg _ Ha') as N1.
+    constructor.
+    + destruct (eset_users s E a m) as [K|[K|(h & Em & K)]]; rewrite K.
+      * apply forallb_put; assumption.
+      * exact Hu.
+      * apply forallb_put; [|apply forallb_put; assumption]. apply wf_mutate; [exact Ha'|exact Logic.I].
+    + destruct (eset_next s E a m) as [K|K]; rewrite K; lia.
+    + rewrite eset_rest. exact Hc.
   - constructor; simpl; [|exact Hn|exact Hc]. unfold del. apply forallb_filter. exact Hu.
   - destruct He as [Hne Hv]. destruct (name_valid_safe _ Hne Hv) as [S1 S2].
-    constructor; simpl; [|lia|exact Hc].
-    apply forallb_put; [|exact Hu].
-    unfold wf_acct, wf_user, set_pw.
-    match goal with |- context[if ?b then _ else _] => destruct b eqn:Em end; proj; rewrite S1, S2, enc_pw_safe;
-      (replace (0 <=? s_next s + 1)%Z with true by (symmetry; apply Z.leb_le; lia)); [|reflexivity].
-    apply andb_true_iff in Em as [_ Em]. apply andb_true_iff in Em as [Em _].
-    unfold C16.Model.iset_add. cbn. rewrite Em. reflexivity.
+    destruct (ereg_shape s E name pw addmask) as (Kn & Kc & Ku).
+    assert (W1 : wf_acct (Acct (reg_u1 s name pw) []) = true).
+    { unfold wf_acct, wf_user, reg_u1, set_pw. proj. rewrite S1, S2, enc_pw_safe.
+      (replace (0 <=? s_next s + 1)%Z with true by (symmetry; apply Z.leb_le; lia)). reflexivity. }
+    constructor.
+    + destruct Ku as [K|[K|[Hm K]]]; rewrite K.
+      * unfold del. apply forallb_filter. exact Hu.
+      * apply forallb_put; assumption.
+      * apply forallb_put; [|exact Hu].
+        unfold wf_acct, wf_user, reg_u1, set_pw. proj. rewrite S1, S2, enc_pw_safe.
+        (replace (0 <=? s_next s + 1)%Z with true by (symmetry; apply Z.leb_le; lia)).
+        unfold C16.Model.iset_add. cbn. rewrite Hm. reflexivity.
+    + rewrite Kn. lia.
+    + rewrite Kc. exact Hc.
 Qed.
 Transparent mutate.
 
